@@ -138,6 +138,9 @@ fn main() {
     if std::fs::create_dir_all("/var/log/azure-proxy-agent").is_err() || !std::path::Path::new("/mnt/console").exists() {
         vcommon::result::machinery("this engine writes the agent's aggregate status file: it must run inside bin/ns");
     }
+    // std::time::Instant of the subject is owned through an LD_PRELOAD shim on clock_gettime (the engine replaces itself by
+    // itself under the shim once)
+    let shim = vcommon::clockshim::reexec_under_shim(&format!("{}/run", std::env::var("VERIF_TARGET").unwrap_or("/verif/target".into())));
     let base = PathBuf::from(std::env::var("VERIF_TARGET").unwrap_or("/verif/target".into())).join(format!("run/c20-monitor-{}", std::process::id()));
     let _ = std::fs::remove_dir_all(&base);
     let ev_dir = base.join("events");
@@ -202,6 +205,26 @@ fn main() {
             seqs.push(v);
         }
     }
+    // passes that are not 15 s apart: the setup tool runs inside the monitor loop and may take minutes, the process may be
+    // starved or frozen; seconds of monotonic time that pass before each pass (the statement counts observations, not time)
+    let mut timed: BTreeMap<usize, Vec<u64>> = BTreeMap::new();
+    for f in [In::Unreadable, In::Mismatch, In::Exit1, In::Garbled] {
+        for (lead, gaps) in [(2usize, vec![400u64]), (0, vec![400]), (2, vec![15, 15, 330]), (2, vec![60; 19]), (0, vec![16; 19]), (2, vec![0, 0, 0, 0, 0, 301]), (2, vec![15, 15, 15, 15, 15, 15, 15, 15, 15, 15, 15, 15, 15, 15, 15, 15, 15, 15, 86400])] {
+            let mut v = vec![In::Healthy; lead];
+            let mut g = vec![15u64; lead];
+            v.extend(vec![f; 19]);
+            // the first failure follows 15 s after what was before it; the listed gaps precede the 2nd, 3rd, ... failure
+            g.push(15);
+            for k in 0..18 {
+                g.push(*gaps.get(k).unwrap_or(&15));
+            }
+            v.extend([In::Healthy, In::Healthy]);
+            g.extend([15, 15]);
+            timed.insert(seqs.len(), g);
+            seqs.push(v);
+        }
+    }
+    let n_timed = timed.len() as u64;
     let (mut passes, mut events_seen) = (0u64, 0u64);
     let mut classes: BTreeMap<String, u64> = BTreeMap::new();
     rt.block_on(async {
@@ -223,6 +246,9 @@ fn main() {
             // state variable -> (class of its last emitted notification, pass of that emission)
             let mut last_of_var: BTreeMap<&'static str, (String, usize)> = BTreeMap::new();
             for (pi, &i) in seq.iter().enumerate() {
+                if let Some(g) = timed.get(&si) {
+                    vcommon::clockshim::advance(g[pi]);
+                }
                 apply(&mut run, i);
                 passes += 1;
                 if i == In::AgentSaysError {
@@ -283,15 +309,19 @@ fn main() {
     });
     let _ = std::fs::remove_dir_all(&base);
     let _ = std::fs::remove_file(STATUS_FILE);
+    if !shim.is_empty() {
+        let _ = std::fs::remove_file(&shim);
+    }
     if events_seen == 0 {
         vcommon::result::machinery("no event was read back from the event logger: the notification oracle would be vacuous");
     }
     res.cov("monitor_sequences", seqs.len() as u64);
     res.cov("monitor_passes", passes);
+    res.cov("monitor_sequences_with_owned_time_between_passes", n_timed);
     res.cov("events_read_back", events_seen);
     res.cov("notification_classes", json!(classes));
     res.cov("evaluations", passes);
     res.cov("exhaustive", true);
-    res.cov("monitor_rule", format!("every sequence of {la} monitor passes over {{status file absent, other version, healthy, present but not JSON}} and of {lb} passes over {{setup tool not startable, exit 1, exit 0, healthy, absent}}, sustained conditions of 250 passes and 125 passes after a change, failure runs of 18..25 passes of five kinds followed by successes, conditions alternating every 1/2/5 passes (30 phases), runs of 1..25 passes in which the agent's own overall state is ERROR in a file of the expected version; the real report_proxy_agent_aggregate_status / report_proxy_agent_service_status (through the guarded verif_access module) with the real event logger on a paused clock"));
+    res.cov("monitor_rule", format!("every sequence of {la} monitor passes over {{status file absent, other version, healthy, present but not JSON}} and of {lb} passes over {{setup tool not startable, exit 1, exit 0, healthy, absent}}, sustained conditions of 250 passes and 125 passes after a change, failure runs of 18..25 passes of five kinds followed by successes, conditions alternating every 1/2/5 passes (30 phases), runs of 1..25 passes in which the agent's own overall state is ERROR in a file of the expected version; 19 failures of four kinds with 0 s .. 24 h of monotonic time (owned through an LD_PRELOAD shim on clock_gettime) between passes, e.g. 400 s after the first failure, 60 s between all, 301 s before the seventh; the real report_proxy_agent_aggregate_status / report_proxy_agent_service_status (through the guarded verif_access module) with the real event logger on a paused clock"));
     std::process::exit(res.finish());
 }
